@@ -70,6 +70,9 @@ struct Scen {
 	/// (relative to the base) from which such a claim can be broadcast
 	tl_outs: Vec<OutPoint>,
 	tl_height: u32,
+	late: bool,
+	holder: bool,
+	pre_in1: Option<PaymentPreimage>,
 	other_commit: Option<Txid>,
 	/// transactions the node under test had broadcast before the snapshot was taken
 	seed_txs: Vec<Transaction>,
@@ -154,7 +157,7 @@ fn prep_fund(name: &str, nut: usize) -> Scen {
 		txs: vec![None, Some(tx), Some(theirs[0].clone()), None, Some(ours[0].clone())],
 		funding_txid, chan_id, hashes: vec![], failtrig: vec![], minh2: 0, funding_role: true, base_conf: 0,
 		kinds: vec!["", "funding", "counterparty_commitment", "", "holder_commitment"],
-		other_commit: None, seed_txs: vec![], min_depth: 3, tl_outs: vec![], tl_height: 0,
+		other_commit: None, seed_txs: vec![], min_depth: 3, tl_outs: vec![], tl_height: 0, late: false, holder: false, pre_in1: None,
 	}
 }
 
@@ -172,7 +175,7 @@ fn route_with_cltv(from: &N, to: &N, amt: u64, final_cltv: u32) -> (PaymentPreim
 /// preimage), out2 (nut -> peer, dust), out3 (nut -> peer, non-dust, same expiry as out1), in1 (peer -> nut, nut has claimed it: preimage in the
 /// monitor). out1 expires at base height + EXP. If `force_close`, the node under test has already
 /// broadcast its own commitment. `holder` selects which commitment plays role 1.
-fn prep_open(name: &str, holder: bool, force_close: bool) -> Scen {
+fn prep_open(name: &str, holder: bool, force_close: bool, late: bool) -> Scen {
 	const EXP: u32 = 2;
 	let nut = 0usize;
 	let nodes = mk_net("static", 6);
@@ -185,7 +188,8 @@ fn prep_open(name: &str, holder: bool, force_close: bool) -> Scen {
 	// timeouts are claimed by ONE aggregated transaction, which a preimage claim of out1 splits
 	let (_pre_out3, hash_out3, ..) = route_payment(&nodes[0], &[&nodes[1]], 3_500_000);
 	let (pre_in1, hash_in1) = route_with_cltv(&nodes[1], &nodes[0], 4_000_000, TEST_FINAL_CLTV + 66);
-	nodes[0].node.claim_funds(pre_in1);
+	// `late`: the node under test learns the preimage of in1 only during the run (script op `claim`)
+	if !late { nodes[0].node.claim_funds(pre_in1); }
 	nodes[1].node.claim_funds(pre_out1);
 	quiet(&nodes[0]);
 	quiet(&nodes[1]);
@@ -207,13 +211,19 @@ fn prep_open(name: &str, holder: bool, force_close: bool) -> Scen {
 	let base_blocks = nodes[0].blocks.lock().unwrap().clone();
 	let ucfg = nodes[0].node.get_current_config();
 	let base_h = base_blocks.last().unwrap().1;
+	let ours = if late {
+		// the transactions of the roles are taken from the live node after it has claimed
+		nodes[0].node.claim_funds(pre_in1);
+		quiet(&nodes[0]);
+		local_txn(&nodes[0], chan_id)
+	} else { ours };
 	let spends = |t: &Transaction, p: &Transaction| t.input.iter().any(|i| i.previous_output.txid == p.compute_txid());
 	let mut txs: Vec<Option<Transaction>> = vec![None; 5];
 	let mut s = Scen {
 		name: name.to_string(), nut, nodes, mgr_bytes, mon_bytes, base_blocks, ucfg, txs: vec![],
 		funding_txid, chan_id, hashes: vec![hash_out1, hash_out2, hash_in1, hash_out3], failtrig: if holder { vec![2, 1, 0, 0] } else { vec![2, 1, 0, 2] },
 		minh2: EXP + 1, funding_role: false, base_conf, kinds: vec![],
-		other_commit: Some(if holder { theirs[0].compute_txid() } else { ours[0].compute_txid() }), seed_txs, min_depth: 6, tl_outs: vec![], tl_height: EXP,
+		other_commit: Some(if holder { theirs[0].compute_txid() } else { ours[0].compute_txid() }), seed_txs, min_depth: 6, tl_outs: vec![], tl_height: EXP, late, holder, pre_in1: Some(pre_in1),
 	};
 	if holder {
 		txs[1] = Some(ours[0].clone());
@@ -246,6 +256,7 @@ fn prep_open(name: &str, holder: bool, force_close: bool) -> Scen {
 		// counterparty commitment?  (the clone is discarded; every run restores from the bytes)
 		let (mb, nb, uc) = (s.mgr_bytes.clone(), s.mon_bytes.clone(), s.ucfg.clone());
 		restore(&mut s.nodes[0], &uc, &mb, &nb);
+		if late { s.nodes[0].node.claim_funds(pre_in1); }
 		s.nodes[0].tx_broadcaster.clear();
 		let mut prev = s.nodes[0].best_block_hash();
 		for k in 0..(EXP + 2) {
@@ -283,20 +294,22 @@ fn prepare(name: &str) -> Scen {
 	match name {
 		"fund_a" => prep_fund(name, 0),
 		"fund_b" => prep_fund(name, 1),
-		"open_cp" => prep_open(name, false, false),
-		"open_holder" => prep_open(name, true, false),
-		"fc_cp" => prep_open(name, false, true),
-		"fc_holder" => prep_open(name, true, true),
+		"open_cp" => prep_open(name, false, false, false),
+		"open_holder" => prep_open(name, true, false, false),
+		"fc_cp" => prep_open(name, false, true, false),
+		"fc_holder" => prep_open(name, true, true, false),
+		"late_cp" => prep_open(name, false, false, true),
+		"late_holder" => prep_open(name, true, false, true),
 		_ => panic!("unknown scenario {}", name),
 	}
 }
 
-const SCENARIOS: [&str; 6] = ["fund_a", "fund_b", "open_cp", "open_holder", "fc_cp", "fc_holder"];
+const SCENARIOS: [&str; 8] = ["fund_a", "fund_b", "open_cp", "open_holder", "fc_cp", "fc_holder", "late_cp", "late_holder"];
 
 impl Scen {
 	fn describe(&self) -> Value {
 		json!({"name": self.name, "nut": self.nut, "roles": (1..5).map(|r| self.txs[r].is_some()).collect::<Vec<_>>(),
-			"kinds": self.kinds, "minh2": self.minh2, "minh": (1..5).map(|r| self.minh(r)).collect::<Vec<_>>(), "funding_role": self.funding_role, "failtrig": self.failtrig,
+			"kinds": self.kinds, "late": self.late, "minh2": self.minh2, "minh": (1..5).map(|r| self.minh(r)).collect::<Vec<_>>(), "funding_role": self.funding_role, "failtrig": self.failtrig,
 			"base_height": self.base_blocks.last().unwrap().1,
 			"locktimes": (1..5).map(|r| self.txs[r].as_ref().map(|t| t.lock_time.to_consensus_u32()).unwrap_or(0)).collect::<Vec<_>>()})
 	}
@@ -533,7 +546,10 @@ impl<'a> Run<'a> {
 					// which of "counterparty commitment confirmed" / "HTLC timed out, own commitment
 					// broadcast" closes the channel first legitimately depends on whether the tip or the
 					// transactions are announced first (see ConnectStyle::BestBlockFirst*): one conclusion
-					let c = if s == "ChannelClosed:CommitmentTxConfirmed" || s == "ChannelClosed:HTLCsTimedOut" { "ChannelClosed:onchain".to_string() } else { s };
+					// (likewise "funding un-confirmed" vs "commitment confirmed" when a reorganisation does
+					// both and the two objects are not told in lock-step)
+					let c = if s == "ChannelClosed:CommitmentTxConfirmed" || s == "ChannelClosed:HTLCsTimedOut"
+						|| s.starts_with("ChannelClosed:ProcessingError(Funding transaction was unconfirmed") { "ChannelClosed:onchain".to_string() } else { s };
 					self.evs.push(c);
 				}
 				if let Some(i) = irr { self.irrev.push(i); }
@@ -694,6 +710,13 @@ impl<'a> Run<'a> {
 				restore(&mut self.s.nodes[nut], &uc, &mb, &nb);
 				self.log.push(json!({"ev":"reload"}));
 			}
+			if tr["claim"].as_bool().unwrap_or(false) {
+				// the preimage of the inbound HTLC becomes known now (the user claims the payment)
+				let pre = self.s.pre_in1.expect("scenario has no late preimage");
+				self.s.nodes[self.s.nut].node.claim_funds(pre);
+				self.log.push(json!({"ev":"claim"}));
+				self.drain();
+			}
 			let newchain = self.chain_of(tip);
 			self.chain_now = newchain.clone();
 			// `node.blocks` only feeds TestBroadcaster's "never broadcast before its locktime" hygiene
@@ -785,7 +808,9 @@ fn main() {
 		let mut log: Vec<Value> = Vec::new();
 		log.push(json!({"ev":"reset","kind":sc["kind"],"hist":sc["hist"],"scen":name,"parent":sc["parent"],"txs":sc["txs"],
 			"targets":sc["targets"],"order":sc["order"],"ard":consts.anti_reorg_delay,"minh":(1..5).map(|r| scen.minh(r)).collect::<Vec<_>>(),
-			"funding_role":scen.funding_role,"failtrig":scen.failtrig,"base_conf":scen.base_conf,"min_depth":scen.min_depth,"tl_height":scen.tl_height,
+			"funding_role":scen.funding_role,"failtrig":scen.failtrig,"base_conf":scen.base_conf,"min_depth":scen.min_depth,"tl_height":scen.tl_height,"late":scen.late,"holder":scen.holder,
+			"in1_out": scen.txs[3].as_ref().filter(|_| scen.pre_in1.is_some()).map(|t| vec![json!([scen.tx_idx(&t.input[0].previous_output.txid), t.input[0].previous_output.vout])]).unwrap_or_default(),
+			"claims_at": sc["trans"].as_array().map(|t| t.iter().map(|x| x["claim"].as_bool().unwrap_or(false)).collect::<Vec<_>>()).unwrap_or_default(),
 			"tl_outs":scen.tl_outs.iter().map(|o| json!([scen.tx_idx(&o.txid), o.vout])).collect::<Vec<_>>(),
 			"reloads": sc["trans"].as_array().map(|t| t.iter().map(|x| x["reload"].as_bool().unwrap_or(false)).collect::<Vec<_>>()).unwrap_or_default(),
 			"inputs": (1..5).map(|r| scen.txs[r].as_ref().map(|t| t.input.iter().map(|i| json!([scen.tx_idx(&i.previous_output.txid), i.previous_output.vout])).collect::<Vec<_>>()).unwrap_or_default()).collect::<Vec<_>>()}));
